@@ -64,17 +64,44 @@ func (s *vfMQSub) Unsubscribe() error {
 // vfMQ implements mq.Client following the contract of server/mq/mq.go: the
 // Response of SendRequest is called once, later, never synchronously.
 type vfMQ struct {
-	mu   sync.Mutex
-	reqs []*vfRequest
-	subs []*vfMQSub
-	log  []string
-	seq  int
+	mu       sync.Mutex
+	reqs     []*vfRequest
+	subs     []*vfMQSub
+	log      []string
+	seq      int
+	connects int
+	closes   int
+	closed   bool
+	onClosed func(error)
 }
 
-func (m *vfMQ) Connect() error                  { return nil }
-func (m *vfMQ) Close()                          {}
-func (m *vfMQ) IsClosed() bool                  { return false }
-func (m *vfMQ) SetClosedHandler(cb func(error)) {}
+func (m *vfMQ) Connect() error {
+	m.mu.Lock()
+	defer m.mu.Unlock()
+	m.connects++
+	m.closed = false
+	return nil
+}
+
+// Close ends the connection: as with the NATS adapter, pending requests are
+// dropped (their callbacks are never called) and subscriptions end.
+func (m *vfMQ) Close() {
+	m.mu.Lock()
+	defer m.mu.Unlock()
+	m.closes++
+	m.closed = true
+	for _, r := range m.reqs {
+		r.answered = true
+	}
+	for _, s := range m.subs {
+		s.unsub = true
+	}
+	m.log = append(m.log, "C")
+}
+func (m *vfMQ) IsClosed() bool { return m.closed }
+func (m *vfMQ) SetClosedHandler(cb func(error)) {
+	m.onClosed = cb
+}
 
 const vfMaxControlLine = 4096
 const vfInboxLen = 29
@@ -184,6 +211,24 @@ type vfSink struct {
 	mu     sync.Mutex
 	frames []string
 	peer   *websocket.Conn // the client end (native mode)
+	closed bool            // the gateway closed the socket (native mode)
+}
+
+// wsClosed reports whether the gateway has closed the client's socket.
+func (w *vfWorld) wsClosed(cl *vfClient) bool {
+	if zzvf.Symbolic() {
+		return zzvf.WSClosed(cl.c.ws)
+	}
+	for k := 0; k < 20; k++ {
+		cl.sink.mu.Lock()
+		c := cl.sink.closed
+		cl.sink.mu.Unlock()
+		if c {
+			return true
+		}
+		time.Sleep(200 * time.Microsecond)
+	}
+	return false
 }
 
 func (s *vfSink) add(f string) {
@@ -198,7 +243,11 @@ func (s *vfSink) snapshot() []string {
 	return append([]string(nil), s.frames...)
 }
 
-func vfNewWorld(cfg Config) *vfWorld {
+func vfNewWorld(cfg Config) *vfWorld { return vfNewWorldOpt(cfg, true) }
+
+// vfNewWorldOpt builds the world; with started == false the service is left
+// stopped (no stop channel, cache not started) for Service.Start to run.
+func vfNewWorldOpt(cfg Config, started bool) *vfWorld {
 	// maprev: the engine iterates maps in insertion order, or in reverse
 	zzvf.MapOrder(zzvf.ParamOr("maprev", 0) == 1)
 	m := &vfMQ{}
@@ -210,10 +259,12 @@ func vfNewWorld(cfg Config) *vfWorld {
 		s.cfg.allowOrigin = []string{"*"}
 	}
 	s.conns = make(map[string]*wsConn)
-	s.stop = make(chan error, 1)
 	s.cache = rescache.NewCache(m, 0, cfg.ResetThrottle, time.Hour, s.logger, nil)
-	if err := s.cache.Start(); err != nil {
-		zzvf.Assert(false, "harness-cache-start")
+	if started {
+		s.stop = make(chan error, 1)
+		if err := s.cache.Start(); err != nil {
+			zzvf.Assert(false, "harness-cache-start")
+		}
 	}
 	s.enc = apiEncoderFactories["json"](s.cfg)
 	return &vfWorld{s: s, mq: m}
@@ -242,6 +293,9 @@ func vfNativeWS() (*websocket.Conn, *vfSink) {
 		for {
 			_, data, err := client.ReadMessage()
 			if err != nil {
+				sink.mu.Lock()
+				sink.closed = true
+				sink.mu.Unlock()
 				return
 			}
 			sink.add(string(data))
